@@ -412,6 +412,9 @@ OrderAlphabet ==       \* C03: definition chains / diamonds / uses in every oper
     I1("movi", Bin("-", Bin("+", Sym("q"), Sym("q")), Bin("+", Sym("p"), Sym("p")))), W(<< Bin("*", Bin("+", A, Num(1)), B) >>),
     Blkb(Bin("*", Bin("+", Sym("c"), Num(1)), Sym("d"))) }
 
+OrderTwoAlphabet ==    \* C03 across linked files: a name another file exports and this file also defines for itself, before or after its uses
+  { ConstX("c", Num(13)), Const("c", Num(5)), LabX("l"), Lab("l"), W(<<Sym("c")>>), By(<<Sym("c")>>), Const("a", Bin("+", Sym("c"), Num(1))), W(<<A, Sym("l")>>),
+    I1("movi", Sym("c")), Blkb(Sym("c")) }
 OrderCoreAlphabet ==   \* C03: the core of OrderAlphabet, small enough for all programs of 4 statements
   { Const("a", Bin("+", B, Num(1))), Const("b", Bin("*", Sym("c"), Num(2))), Const("c", Num(5)),
     Const("p", Bin("+", Sym("l"), Num(2))), Const("q", Bin("+", Sym("l"), Num(102))), Lab("l"),
